@@ -477,7 +477,7 @@ func (cm *CMap) parseBfRangeArray(line string) {
 	// Extract array content
 	arrayStart := strings.Index(line, "[")
 	arrayEnd := strings.Index(line, "]")
-	if arrayStart == -1 || arrayEnd == -1 {
+	if arrayStart == -1 || arrayEnd == -1 || arrayEnd < arrayStart {
 		return
 	}
 
